@@ -463,6 +463,16 @@ def pool():
         r.add_header("X-Last", "é")
         return r
 
+    def headers_assigned():
+        r = Response(b"assigned", headers={"X-Old": "gone"})
+        r.headers = [("X-New", "n"), ("Set-Cookie", "a=1"), ("Set-Cookie", "b=2")]      # the setter replaces the collection
+        return r
+
+    def headers_assigned_obj():
+        r = TextResponse("assigned obj")
+        r.headers = Headers([("X-Obj", "é".encode().decode("latin-1")), ("Content-Type", "text/x-own")])
+        return r
+
     def partial():
         r = PartialResponse(b"56789")
         r.make_range([(5, 9)], "chars", 25)
@@ -504,6 +514,9 @@ def pool():
                                                                               tzinfo=__import__("datetime").timezone.utc),
                                            vary="Accept-Encoding, Cookie")),
         f_resp(lambda: NotModifiedResponse()),
+        f_resp(lambda: RedirectResponse("/perm2", permanent=True)),
+        f_resp(headers_assigned),
+        f_resp(headers_assigned_obj),
     ]
     for group in (plain, junk, tuples, resps):
         for f in group:
